@@ -133,12 +133,16 @@ pub fn run(tier: &str) -> Result<Report, String> {
             }
             // the pattern twice: once inside a domain-restricted scope and once elsewhere, in both orders
             // (a shortcut result computed in one scope must not leak into the other through the cache)
-            let dom_ctx: Vec<&F> = contexts.iter().filter(|c| c.size() <= (if tier == "quick" { 3 } else { 4 }) && c.any(|x| matches!(x, F::Hy(_, _, Some(_), _)))).collect();
-            let any_ctx: Vec<&F> = contexts.iter().filter(|c| c.size() <= (if tier == "quick" { 2 } else { 3 })).collect();
+            // bounds (domain context nodes, other context nodes): quick (3, 2); thorough (4, 2) and (3, 3) on the
+            // networks with <= 2 variables, (3, 2) on the 3-variable ones (the unbounded product took > 12 CPU-hours)
+            let bounds: Vec<(usize, usize)> = if tier == "quick" || b.n > 2 { vec![(3, 2)] } else { vec![(4, 2), (3, 3)] };
             let mut twice: Vec<(F, F)> = vec![];
             for (_, mk, twin) in patterns() {
-                for c1 in &dom_ctx {
-                    for c2 in &any_ctx {
+                for c1 in contexts.iter().filter(|c| c.any(|x| matches!(x, F::Hy(_, _, Some(_), _)))) {
+                    for c2 in contexts.iter() {
+                        if !bounds.iter().any(|(d, a)| c1.size() <= *d && c2.size() <= *a) {
+                            continue;
+                        }
                         for op in [Bi::And, Bi::Or] {
                             if let (Some(p1), Some(p2), Some(t1), Some(t2)) = (fill(c1, 0, &mk), fill(c2, 0, &mk), fill(c1, 0, &twin), fill(c2, 0, &twin)) {
                                 twice.push((F::bin(op, p1.clone(), p2.clone()), F::bin(op, t1.clone(), t2.clone())));
@@ -174,7 +178,7 @@ pub fn run(tier: &str) -> Result<Report, String> {
         }
     }
     rep.set("one_hole_contexts", json!(n_contexts));
-    rep.rule = format!("every one-hole context with <= {ctx_nodes} nodes (all unary operators, & | => EU AU, bind/exists/forall with and without domains, jump) x the two shortcut patterns, their pattern-defeating twins and 16 near-miss families (other variable, domain on the binder, extra / fewer / swapped / other operators, other quantifier), on the core networks x 2 label families: shortcut vs twin must be the same set (BDD equality); the pattern occurring twice (inside a domain-restricted context and in any other context, both orders, joined by & / |) vs the same with twins, and vs the oracle; and every formula must agree with the explicit-state oracle and stay inside the unit set; distinct_nontrivial = distinct non-trivial verdict tables");
+    rep.rule = format!("every one-hole context with <= {ctx_nodes} nodes (all unary operators, & | => EU AU, bind/exists/forall with and without domains, jump) x the two shortcut patterns, their pattern-defeating twins and 16 near-miss families (other variable, domain on the binder, extra / fewer / swapped / other operators, other quantifier), on the core networks x 2 label families: shortcut vs twin must be the same set (BDD equality); the pattern occurring twice (inside a domain-restricted context and in any other context, both orders, joined by & / |; context sizes (domain, other) bounded by (3,2) in quick and on 3-variable networks, (4,2) and (3,3) in thorough on networks with <= 2 variables) vs the same with twins, and vs the oracle; and every formula must agree with the explicit-state oracle and stay inside the unit set; distinct_nontrivial = distinct non-trivial verdict tables");
     Ok(rep)
 }
 
